@@ -419,6 +419,10 @@ func litestream.(*DB).EnforceL0RetentionByTime(db, ctx) (err)
   at litestream.ReplicaClient.DeleteLTXFiles#1 assert [C07.l0-keep-newest] len(deleted) < it_n[itr]
   at litestream.ReplicaClient.DeleteLTXFiles#1 assert [C07.l0-old] forall i int :: {deleted[i]} 0 <= i && i < len(deleted) ==> deleted[i].CreatedAt == 0 || deleted[i].CreatedAt <= threshold
   at litestream.ReplicaClient.DeleteLTXFiles#1 assert [C07.l0-enabled] db.RetentionEnabled
+  at os.Remove#1 assert [C07.l0-local-keep-newest] len(deleted) < it_n[itr] && maxL1TXID != 0 && 0 <= rangeindex && rangeindex < len(deleted) && info#2 == deleted[rangeindex]
+  at os.Remove#1 assert [C07.l0-local-covered] info#2 != nil && info#2 == item(itr, rangeindex) && info#2.MaxTXID <= maxL1TXID
+  loop 3 invariant itr != nil && it_n[itr] == atloop(it_n[itr]) && len(deleted) < it_n[itr] && maxL1TXID != 0 && -1 <= rangeindex && rangeindex < len(deleted)
+  loop 3 invariant forall i int :: {deleted[i]} 0 <= i && i < len(deleted) ==> deleted[i] != nil && deleted[i] == item(itr, i) && deleted[i].MaxTXID <= maxL1TXID
   loop 0 invariant itr != nil && itOK(itr) && it_client[itr] == db.Replica.Client && it_level[itr] == 1 && db.Replica == old(db.Replica) && db.Replica.Client == old(db.Replica.Client)
   loop 0 invariant maxL1TXID == 0 || (exists k int :: {replFile(db.Replica.Client, 1, k)} 0 <= k && k < it_idx[itr] && maxL1TXID == fmax(replFile(db.Replica.Client, 1, k)))
   loop 1 invariant itr != nil && itOK(itr) && it_client[itr] == db.Replica.Client && it_level[itr] == 0 && db.Replica == old(db.Replica) && db.Replica.Client == old(db.Replica.Client) && lastInfo == lastSeen(itr) && processedAll && maxL1TXID != 0
